@@ -71,10 +71,16 @@ impl StoreInstance {
     { unimplemented!() }
 }
 
-/// sync.rs `Subscribers(Vec<async_channel::Sender<Event>>)`: abstractly the sequence of events handed to `send`
-/// (each is delivered to every live subscriber channel: async channels, outside the verifier)
-#[verifier::external_body]
-pub struct Subscribers { _p: u8 }
+/// async_channel::Sender<T>: opaque
+pub mod async_channel {
+    #[verifier::external_body]
+    #[verifier::reject_recursive_types(T)]
+    pub struct Sender<T> { _p: std::marker::PhantomData<T> }
+}
+/// sync.rs `struct Subscribers(Vec<async_channel::Sender<Event>>)` is the REAL struct (extracted in
+/// frag/valid-replica-types.vt). Its ghost view is the sequence of events handed to `send` so far (each is delivered to
+/// every live subscriber channel: async channels, outside the verifier). `send` itself (iterator adaptors over async
+/// sends, drops closed channels) is a shell.
 impl Subscribers {
     uninterp spec fn view(&self) -> Seq<Event>;
     // (the return value is named because this Verus version drops the `final(self)` clauses of an async fn whose
